@@ -402,4 +402,107 @@ theorem lookup_newClients (f : Nat → Client → ClientStep) (cs : List (Nat ×
     · simp only [h, if_false]
       exact ih
 
+/-! ### what is left parked when a `drive_connection` call returns (quiescence) -/
+
+@[simp] theorem push_rest (n : Nat) (o : DriveOut) : (o.push n).rest = o.rest := rfl
+@[simp] theorem push_starved (n : Nat) (o : DriveOut) : (o.push n).starved = o.starved := rfl
+
+theorem takeBuf_none {cl : Client} (h : takeBuf cl = none) : cl.wbuf = none ∧ cl.msgs = [] := by
+  unfold takeBuf at h
+  cases hw : cl.wbuf with
+  | some b => simp [hw] at h
+  | none =>
+    cases hm : cl.msgs with
+    | nil => exact ⟨rfl, rfl⟩
+    | cons f rest => simp [hw, hm] at h
+
+/-- the buffer handed back into `wbuf` is the next one taken, and taking it leaves the same client -/
+theorem takeBuf_putBack {cl cl' : Client} {buf : List UInt8} (h : takeBuf cl = some (buf, cl')) :
+    takeBuf { cl' with wbuf := some buf } = some (buf, cl') := by
+  rcases takeBuf_some h with ⟨_, rfl⟩ | ⟨hw, f, rest, _, _, rfl⟩
+  · simp [takeBuf]
+  · simp [takeBuf, hw]
+
+/-- `drive` sees a client with something to write only through `takeBuf` -/
+theorem drive_congr_some (fx : Fixes) {a b cl' : Client} {buf : List UInt8}
+    (ha : takeBuf a = some (buf, cl')) (hb : takeBuf b = some (buf, cl')) (rs : List WriteResult) :
+    drive fx a rs = drive fx b rs := by
+  cases rs with
+  | nil => simp [drive, ha, hb]
+  | cons r rs => simp [drive, ha, hb]
+
+/-- the socket refused the write of a buffer of `len` bytes: `WouldBlock`, or it took only a part.  (The kernel
+    answers like this only when the socket's send buffer is full, and then owes a WRITABLE edge.) -/
+def Refused (r : WriteResult) (len : Nat) : Prop :=
+  r = .wouldBlock ∨ ∃ n, r = .ok n ∧ 0 < n ∧ n < len
+
+/-- `drive_connection` comes back with a buffer parked in `wbuf` only if the LAST `write` it made was refused
+    by the socket (`WouldBlock` or a short write) -- never after `Interrupted`, never after a write that was
+    taken whole.  (`starved`: the model ran out of write results, which it answers as `WouldBlock`.) -/
+theorem drive_parks_only_on_refusal (fx : Fixes) :
+    ∀ (rs : List WriteResult) (cl : Client),
+      (drive fx cl rs).done = false → (drive fx cl rs).cl.wbuf.isSome = true →
+      (drive fx cl rs).starved = true ∨
+      ∃ pre r as a, rs = pre ++ r :: (drive fx cl rs).rest ∧ (drive fx cl rs).attempts = as ++ [a] ∧ Refused r a := by
+  intro rs
+  induction rs with
+  | nil =>
+    intro cl
+    cases htk : takeBuf cl with
+    | none =>
+      intro _ hw
+      simp [drive, htk, (takeBuf_none htk).1] at hw
+    | some p =>
+      obtain ⟨buf, cl'⟩ := p
+      intro _ _
+      left
+      simp [drive, htk]
+  | cons r rs ih =>
+    intro cl
+    cases htk : takeBuf cl with
+    | none =>
+      intro _ hw
+      simp [drive, htk, (takeBuf_none htk).1] at hw
+    | some p =>
+      obtain ⟨buf, cl'⟩ := p
+      have hcl' : cl'.wbuf = none := by
+        rcases takeBuf_some htk with ⟨_, rfl⟩ | ⟨hw, f, rest, _, _, rfl⟩
+        · rfl
+        · exact hw
+      cases r with
+      | ok n =>
+        by_cases h0 : n = 0
+        · simp [drive, htk, h0]
+        · by_cases hlt : n < buf.length
+          · intro _ _
+            right
+            refine ⟨[], .ok n, [], buf.length, ?_, ?_, Or.inr ⟨n, rfl, by omega, hlt⟩⟩
+            · simp [drive, htk, h0, hlt]
+            · simp [drive, htk, h0, hlt]
+          · have := ih { cl' with received := cl'.received ++ buf }
+            simp only [drive, htk, h0, hlt, if_false, push_cl, push_done, push_rest, push_starved, push_attempts]
+            intro hd hw
+            rcases this hd hw with hs | ⟨pre, r', as, a, h1, h2, h3⟩
+            · exact Or.inl hs
+            · exact Or.inr ⟨.ok n :: pre, r', buf.length :: as, a, by rw [List.cons_append]; exact congrArg _ h1, by rw [h2]; simp, h3⟩
+      | wouldBlock =>
+        intro _ _
+        right
+        refine ⟨[], .wouldBlock, [], buf.length, ?_, ?_, Or.inl rfl⟩
+        · simp [drive, htk]
+        · simp [drive, htk]
+      | interrupted =>
+        have := ih (onBlock fx buf cl')
+        simp only [drive, htk, push_cl, push_done, push_rest, push_starved, push_attempts]
+        intro hd hw
+        rcases this hd hw with hs | ⟨pre, r', as, a, h1, h2, h3⟩
+        · exact Or.inl hs
+        · exact Or.inr ⟨.interrupted :: pre, r', buf.length :: as, a, by rw [List.cons_append]; exact congrArg _ h1, by rw [h2]; simp, h3⟩
+      | err => simp [drive, htk]
+
+/-- after a `drive_connection` call of the repaired code that keeps the client, queued frames wait only behind
+    a parked buffer -/
+def QueueBehindParked (cl : Client) : Prop :=
+  cl.alive = true → cl.msgs ≠ [] → cl.wbuf.isSome = true ∨ cl.started = []
+
 end MetricsVerif.Tcp
